@@ -198,8 +198,13 @@ def c13_stage(out, tier, seed):
                 for v in values[i:i + chunk]:
                     pos = rng.choice(positions)
                     if o["name"] == "Move Overhead":
+                        # (incl. clocks just above the overhead being set - two and a half times, and 1 ms more - with and
+                        # without moves to go: the corners where 'remaining minus overhead' meets the 50 % cap)
+                        c1, c2 = max(1, int(v * 2.5)), v + 1
                         go = rng.choice(["go depth 3", "go wtime 2000 btime 2000 winc 0 binc 0", "go wtime 300 btime 300 movestogo 2",
-                                         "go movetime 200", "go movetime 40"])
+                                         "go movetime 200", "go movetime 40", f"go wtime {c1} btime {c1} movestogo 10",
+                                         f"go wtime {c1} btime {c1} winc 50 binc 50", f"go wtime {c2} btime {c2} movestogo 1",
+                                         f"go wtime {c1} btime {c1} movestogo 40"])
                     else:
                         go = "go depth 3"
                     plan.append((o["name"], v, pos, go))
@@ -510,6 +515,11 @@ def c14_stage(out, tier, seed):
                       rng.choice([None, None, 1, 2, 40])))
     # positions whose FIRST iteration alone outlasts the clock (many queens: the capture search explodes):
     # the limit has to be enforced inside iteration 1 too
+    # the corners where soft = hard = half the clock: one move to go, or an increment far larger than the clock
+    for _ in range(160 if thorough else 28):
+        cases.append((rng.choice(positions), rng.choice([200, 200, 250, 300]), rng.choice([0, 0, 3000]), 1 if rng.random() < 0.6 else None))
+        if cases[-1][2] == 0 and cases[-1][3] is None:
+            cases[-1] = (cases[-1][0], cases[-1][1], 3000, None)
     # (a fixed measured list first - it does not rely on the tree's own poll counter - then freshly measured ones)
     sh = static_heavy(harness)
     for hp in (sh if thorough else rng.sample(sh, 4)):
@@ -840,6 +850,11 @@ def c04_stage(out, tier, seed):
         deep_plans += [(bins[0], deep[2], 255), (bins[1], deep[1], 150)]
     for b, pos, d in deep_plans:
         sessions.insert(0, (b, [(pos, f"go depth {d}", ["setoption name Hash value 64"])], "deep"))
+    # searches at the end of very long games (820..2500 plies in the record the search clones and extends)
+    for j, g in enumerate(oracle_games(harness, 6 if thorough else 3, seed + 40, 150, long=6 if thorough else 3)):
+        if "long_game" in g["features"] and g["replies"]:
+            pos = {"root": g["root"], "moves": g["moves"], "fen": g["fens"][1], "legal": g["replies"]}
+            sessions.insert(0, (bins[j % 2], [(pos, "go depth 6", []), (pos, "go movetime 50", [])], "longgame"))
     lock = threading.Lock()
     distinct = set()
 
@@ -854,6 +869,12 @@ def c04_stage(out, tier, seed):
                     out.extra["x_" + k] = max(out.extra.get("x_" + k, 0), r.get("max_seldepth", 0))
                     if r.get("max_seldepth", 0) >= (100 if bname == "release" else 66):
                         out.features[f"binary_{bname}_recursion_{100 if bname == 'release' else 66}_plies_plus"] = out.features.get(f"binary_{bname}_recursion_{100 if bname == 'release' else 66}_plies_plus", 0) + 1
+            long_chain = False
+        elif long_chain == "longgame":
+            res = c04_session(binary, plan, wait=300.0)
+            with lock:
+                out.features["binary_searches_after_games_of_800_plies_or_more"] = out.features.get("binary_searches_after_games_of_800_plies_or_more", 0) + len(res)
+                out.extra["x_longest_game_record_searched_plies"] = max(out.extra.get("x_longest_game_record_searched_plies", 0), len(plan[0][0]["moves"].split()))
             long_chain = False
         else:
             res = c04_session(binary, plan)
@@ -1098,6 +1119,9 @@ def c11_stage(out, tier, seed):
     def work(b):
         (bname, binary), gs = b
         e = Engine(binary)
+        # every other engine process goes from game to game without 'ucinewgame', as a GUI does when positions are
+        # analysed one after the other: the record of the previous game must not show through
+        newgame_between = zlib.crc32(gs[0]["moves"].encode()) % 2 == 0
         try:
             e.send("setoption name Hash value 16")
             if not settle(e, 60):
@@ -1106,7 +1130,8 @@ def c11_stage(out, tier, seed):
             for k, g in enumerate(x for g0 in gs for x in (g0, dict(g0, again=True))):
                 depth = (1, 3, 5, 2)[(k // 2) % 4]
                 if not g.get("again"):
-                    e.send("ucinewgame")
+                    if newgame_between:
+                        e.send("ucinewgame")
                     e.send(position_cmd(g["root"], g["moves"]))
                 # (again: a second 'go' on the same 'position' command, as an analysis GUI restarts a search - the engine
                 # must still know the game that led here)
@@ -1151,6 +1176,59 @@ def c11_stage(out, tier, seed):
 
     with ThreadPoolExecutor(max_workers=12) as ex:
         list(ex.map(work, batches))
+
+    # A 'position' command replaces the game, record included. Engine A is told game G; engine B is first told a longer
+    # game G+ (G continued by a few more moves) and then G - no search in between, so the tables are untouched. The two
+    # engines are then in the same state as far as any property is concerned, and a fixed-depth search is a function of that
+    # state: the two transcripts must be equal. (If B still knows positions of G+, it scores moves that reach them as
+    # repetitions although they never occurred in G.)
+    def overwrite_case(i):
+        bname, binary = bins[i % len(bins)]
+        g = games[(i * 7) % len(games)]
+        p = positions[(i * 5) % len(positions)]
+        # G = a corpus position reached by moves, its root clock raised so that the scan window reaches back; G+ = G plus moves
+        root_fields = (p["root"] if p["root"] != "startpos" else "rnbqkbnr/pppppppp/8/8/8/8/PPPPPPPP/RNBQKBNR w KQkq - 0 1").split()
+        if i % 2 == 0:
+            # a repetition game: G = its first two moves, G+ = the whole game
+            mv = g["moves"].split()
+            root, short, longer = g["root"], " ".join(mv[:max(0, len(mv) - 3)]), g["moves"]
+            rf = root.split()
+            rf[4] = str(max(int(rf[4]), 6))
+            root = " ".join(rf)
+        else:
+            mv = p["moves"].split()
+            if len(mv) < 4:
+                return
+            root_fields[4] = str(max(int(root_fields[4]), 8))
+            root, short, longer = " ".join(root_fields), " ".join(mv[:len(mv) - 3]), " ".join(mv)
+        depth = 4 + i % 3
+        res = []
+        for first in (None, longer):
+            e = Engine(binary)
+            try:
+                e.send("setoption name Hash value 16")
+                if not settle(e, 60):
+                    return
+                if first is not None:
+                    e.send(position_cmd(root, first))
+                res.append(transcript(e, {"root": root, "moves": short}, depth))
+            finally:
+                e.close()
+        with lock:
+            out.evaluations += 1
+            out.features["binary_position_overwrite_comparisons"] = out.features.get("binary_position_overwrite_comparisons", 0) + 1
+            if res[0] is None or res[1] is None:
+                out.add_inconclusive({"stage": f"repetition-{bname}", "what": "no bestmove in an overwrite comparison"})
+            elif res[0] != res[1]:
+                diff = next((x, y) for x, y in zip(res[0] + [""], res[1] + [""]) if x != y)
+                out.add_violation(f"repetition-{bname}", "c11.binary.stale-game-record",
+                                  f"'position fen {root} moves {short}' + 'go depth {depth}' answers differently when a longer game "
+                                  f"('... moves {longer}') was set up just before, with no search in between: '{diff[0]}' vs '{diff[1]}'",
+                                  {"kind": "py", "check": "c11", "binary": bname, "game": {"root": root, "moves": short}, "depth": depth})
+
+    positions = oracle_positions(harness, 40, seed + 11)
+    with ThreadPoolExecutor(max_workers=10) as ex:
+        list(ex.map(overwrite_case, range(60 if thorough else 20)))
     out.groups["c11-binary"] = len({(g["root"], g["moves"]) for g in games})
     if games:
         out.samples.append({"position_command": position_cmd(games[0]["root"], games[0]["moves"]), "repeating_move": games[0]["rep_move"], "class": games[0]["class"]})
